@@ -561,11 +561,7 @@ func c05SafeIndex(c *Ctx) {
 			continue
 		}
 		v := c.view(fd)
-		if v.recv == nil {
-			c.Ob("C05.R2", name, fd.Pos()).Undecided("list spine accessed outside a method")
-			continue
-		}
-		accs := v.spineAccesses(paths)
+		accs := v.spineAccesses(paths) // for a plain function (a constructor) only containers made on the path can be accessed
 		ps := intParams(c, fd)
 		variadic := variadicParam(c, fd)
 		nMin := int64(0)
@@ -595,12 +591,37 @@ func c05SafeIndex(c *Ctx) {
 			}
 			// other containers whose length matters
 			otherBases := map[string]Term{}
+			// native slices whose length matters (the operand of a constructor): free lengths 0..3
+			freeLens := map[string]bool{}
+			isFreeSlice := func(t Term) bool {
+				if _, ct := v.spineOf(t); ct != nil {
+					return false
+				}
+				if variadic != nil && isParamTerm(t, variadic) {
+					return false
+				}
+				tt := c.termType(t)
+				if tt == nil {
+					return false
+				}
+				_, isSl := tt.Underlying().(*types.Slice)
+				_, isTP := tt.(*types.TypeParam)
+				return isSl || isTP
+			}
 			collect := func(t Term) {
 				collectSubterms(t, func(s Term) {
 					if b, ok := v.countOf(s); ok && !v.isSelf(b) {
 						otherBases[key(b)] = b
 					}
+					if bl, ok := s.(TBuiltin); ok && bl.Name == "len" && len(bl.Args) == 1 && isFreeSlice(bl.Args[0]) {
+						freeLens[key(bl.Args[0])] = true
+					}
 				})
+			}
+			for _, l := range a.Loops {
+				if l.Range != nil && l.Over != nil && isFreeSlice(l.Over) {
+					freeLens[key(l.Over)] = true
+				}
 			}
 			for _, cd := range a.Conds {
 				collect(cd.T)
@@ -633,6 +654,9 @@ func c05SafeIndex(c *Ctx) {
 				}
 				for _, k := range obKeys {
 					dims = append(dims, dim{key: k})
+				}
+				for _, k := range keysOf(freeLens) {
+					dims = append(dims, dim{key: "#free:" + k})
 				}
 				freeVariadic := false
 				if variadic != nil {
@@ -688,6 +712,11 @@ func c05SafeIndex(c *Ctx) {
 					base := func(t Term) (int64, bool) {
 						if ix, ok := t.(TIndex); ok && variadic != nil && isParamTerm(ix.X, variadic) {
 							return others["#variadic"], true
+						}
+						if bl, ok := t.(TBuiltin); ok && bl.Name == "len" && len(bl.Args) == 1 {
+							if m, ok := others["#free:"+key(bl.Args[0])]; ok {
+								return m, true
+							}
 						}
 						if b, ok := v.countOf(t); ok && !v.isSelf(b) {
 							if m, ok := others[key(b)]; ok {
@@ -749,6 +778,20 @@ func c05SafeIndex(c *Ctx) {
 						if l.Range != nil {
 							// key ranges over [0, len(Over)-1] when Over is a list spine that the body does not re-install
 							b, ct := v.spineOf(l.Over)
+							if fl, isFree := others["#free:"+key(l.Over)]; isFree && l.Key != nil {
+								for k := int64(0); k < fl; k++ {
+									nv := map[types.Object]int64{}
+									for a, b := range lvars {
+										nv[a] = b
+									}
+									nv[l.Key] = k
+									iterate(li+1, nv)
+								}
+								if fl == 0 {
+									return
+								}
+								return
+							}
 							if ct == nil || !ct.IsList {
 								iterate(li+1, lvars) // ranges over something else: key/value stay symbolic
 								return
@@ -1024,7 +1067,9 @@ func init() {
 				}), 3)
 			}},
 			{ID: "C17.R3", Doc: "the rebuild through NewListFrom keeps every element: the From-constructor copies element-wise without filtering (= C12.R2)", Run: func(c *Ctx) {
-				c.R.Floor("C17.R3", runAs(c, "C17.R3", c12R2, func(o *Obligation) bool { return strings.Contains(o.Construct, "NewListFrom") }), 1)
+				c.R.Floor("C17.R3", runAs(c, "C17.R3", c12R2, func(o *Obligation) bool {
+					return strings.Contains(o.Construct, "NewListFrom/case []string") || strings.Contains(o.Construct, "NewListFrom/case []int") || strings.Contains(o.Construct, "NewListFrom/case []float64")
+				}), 1)
 			}},
 			{ID: "C17.R2", Doc: "Reverse: swaps exactly the mirrored pairs (i, n-1-i), i < n/2 (header simulated for n=0..9), by a parallel swap on the receiver's spine; no other write", Run: c17Reverse},
 		},
@@ -1146,7 +1191,27 @@ func c17Sort(c *Ctx) {
 				other = s.Kind
 			}
 		}
+		// the same decision on the spine model: after the path, the receiver's spine is parseVal of every entry of the sorted slice, in order
+		rebuildFold := func() bool {
+			if nSort != 1 || p.End != "return" || len(p.Vals) != 1 || !v.isEgo(p.Vals[0]) {
+				return false
+			}
+			sc, ok := sortArg.(TCall)
+			if !ok || sc.Fun == nil || sc.Recv == nil || !v.isSelf(sc.Recv) || len(sc.Args) != 0 || c14Family(sc.Fun.Name()) != "Slice" {
+				return false
+			}
+			st, _ := sc.Fun.Type().(*types.Signature).Results().At(0).Type().Underlying().(*types.Slice)
+			if st == nil || c.kindOfType(st.Elem()) != kind {
+				return false
+			}
+			bad, undec := c.foldBuildInto(v, p, sortArg, nil, true, true, true, kind, wantFrom)
+			return bad == "" && undec == ""
+		}
 		if other != "" || nSort != 1 || nStore != 1 {
+			if rebuildFold() {
+				ob.Ok("%s: typed slice of that kind -> trusted sort -> on the spine model (1..3 elements) the receiver's spine is parseVal of every entry of the sorted slice, in order; returns ego", kind)
+				continue
+			}
 			ob.Fail("the %s arm is not exactly: one trusted sort call, one hand-over of the receiver's spine (found %d sort calls, %d spine stores%s): non-decreasing order or in-place rearrangement is not guaranteed", kind, nSort, nStore, map[bool]string{true: ", " + other, false: ""}[other != ""])
 			continue
 		}
@@ -1176,6 +1241,10 @@ func c17Sort(c *Ctx) {
 						}
 					}
 				}
+			}
+			if !good && rebuildFold() {
+				ob.Ok("%s: typed slice of that kind -> trusted sort -> on the spine model (1..3 elements) the receiver's spine is parseVal of every entry of the sorted slice, in order; returns ego", kind)
+				continue
 			}
 			if !good {
 				ob.Fail("the sorted slice is not rebuilt element-wise (fresh slice; append(parseVal(item)) for every item in order) and installed as the RECEIVER's spine")
